@@ -804,6 +804,11 @@ func ext۰b64۰EncodeToString(fr *frame, args []value) value {
 
 func ext۰b64۰DecodeString(fr *frame, args []value) value {
 	enc := b64Encoding(fr, args[0])
+	if ss, isS := args[1].(*symstr); isS {
+		if len(ss.parts) == 1 && ss.parts[0].kind == spB64 && enc == base64.RawStdEncoding {
+			return tuple{fr.i.cx.symBytes(ss.parts[0].t), iface{}}
+		}
+	}
 	s, ok := args[1].(string)
 	if !ok {
 		fr.i.cx.unsupported("base64 decode of symbolic string")
@@ -823,6 +828,11 @@ func ext۰b64۰DecodeString(fr *frame, args []value) value {
 }
 
 func ext۰hex۰DecodeString(fr *frame, args []value) value {
+	if ss, isS := args[0].(*symstr); isS {
+		if len(ss.parts) == 1 && ss.parts[0].kind == spHex {
+			return tuple{fr.i.cx.symBytes(ss.parts[0].t), iface{}}
+		}
+	}
 	s, ok := args[0].(string)
 	if !ok {
 		fr.i.cx.unsupported("hex decode of symbolic string")
@@ -1065,7 +1075,7 @@ func init() {
 		"sync/atomic.StoreUint32": func(fr *frame, args []value) value { *atomicCell(args[0]) = args[1]; return nil },
 		"sync/atomic.StoreUint64": func(fr *frame, args []value) value { *atomicCell(args[0]) = args[1]; return nil },
 
-		"(*sync/atomic.Bool).Load":  func(fr *frame, args []value) value { return binop(fr.i.cx, token.NEQ, nil, *atomicField(args[0]), uint32(0)) },
+		"(*sync/atomic.Bool).Load":  func(fr *frame, args []value) value { v, _ := (*atomicField(args[0])).(uint32); return v != 0 },
 		"(*sync/atomic.Bool).Store": func(fr *frame, args []value) value { v := uint32(0); if fr.i.cx.truth(args[1]) { v = 1 }; *atomicField(args[0]) = v; return nil },
 		"(*sync/atomic.Int32).Load":  func(fr *frame, args []value) value { return *atomicField(args[0]) },
 		"(*sync/atomic.Int32).Store": func(fr *frame, args []value) value { *atomicField(args[0]) = args[1]; return nil },
